@@ -14,7 +14,7 @@ CLAIMED = {
         "exposure loop: readout times, start time, destructive flag, prior bucket contents and written "
         "values are z3 reals/booleans; every feasible path (n<=6 quick, n<=12 thorough readouts, 2x2 frame) "
         "is executed and the clock/bucket-lifecycle clauses are decided by z3 per path; every path witness "
-        "is replayed on the unpatched code.",
+        "is replayed on the unpatched code (thinned to 40 + every 25th path per task in the quick tier). The scene bucket has symbolic prior content and receives a source at every step; its emptiness is counted over the whole tree.",
         "Real arithmetic (IEEE rounding, NaN/inf outside); numpy replaced by the vx.symnp stand-in in the "
         "encoded modules; _extract_datatree_2d stubbed during symbolic runs; z3 trusted.",
         "dynamic symbolic execution of the real Python code (own engine vx) + z3 LRA, path-witness replay",
@@ -26,8 +26,8 @@ CLAIMED = {
         "unbounded z3 integers, pixels reals, shapes 1..3 (quick) / 1..4 (thorough) squared for input and detector; "
         "np.intersect1d forks on membership so the finitely many overlap configurations are enumerated by the solver "
         "while the no-overlap half-lines stay symbolic; per path z3 decides pixelwise placement, rejection iff no "
-        "overlap, alignment geometry; freshness: history write A, load, rewrite B, load through the real cache on real files, for seven stat-level rewrite cases (+1 ns, +50 ms, +0.9 s, +1 s, -1 us, -1 s with equal size; equal mtime with size + 1) and three loaders.",
-        "Format readers (np.load, FITS, text, csv sniffing) are outside: the first sentence of C20 is not decided. "
+        "overlap, alignment geometry; freshness: history write A, load, rewrite B, load through the real cache on real files, for seven stat-level rewrite cases (+1 ns, +50 ms, +0.9 s, +1 s, -1 us, -1 s with equal size; equal mtime with size + 1) and three loaders. First sentence (formats): concrete witness layer only - write / read cycles of boundary values for eight dtypes in npy / FITS, scaled FITS and five text layouts through pyxel.inputs.load_image.",
+        "Format decoders (np.load, astropy FITS, text sniffing) are third-party / C code: witness runs, not symbolic. "
         "pyxel.inputs.load_image is a stub reading a symbolic file store in the freshness harness.",
         "dynamic symbolic execution of the real Python code (vx) + z3 LIA/LRA, path-witness replay",
         "DESIGN.md section 4 C20",
@@ -39,7 +39,7 @@ CLAIMED = {
         "as its own obligation) for every listed (resolution, concrete voltage range): bounds, low/full-scale saturation, "
         "no-wrap for 10 (quick) / 61 (thorough) resolutions, monotonicity for <= 8 / 10 bits; decided by cvc5 (z3 fall-back). "
         "Symbolic voltage range: bug-hunting under a time cap. Real-arithmetic layer: all clauses for every range, every listed "
-        "resolution; SAR bounds/full-scale up to 24 (64) bits, SAR monotone <= 8 (12) bits, zero-noise equivalence (reals, and exact Float64 for concrete range maxima 3.3 / 0.7 V quick, plus 1.8 / 0.2048 / 5.0 V thorough, 4..12 bits).",
+        "resolution; SAR bounds/full-scale up to 24 (64) bits, SAR monotone <= 8 (12) bits, zero-noise equivalence (reals, and exact Float64 for concrete range maxima 3.3 / 0.7 V quick, plus 1.8 / 0.2048 / 5.0 V thorough, 4..12 bits); float32 / float16 signal frames: every number parked in a narrow float array is recorded and integers among them must fit the mantissa (side condition that makes the real-arithmetic verdicts valid for those frames).",
         "NaN inputs excluded; exact-FP verdicts hold for the listed concrete ranges; FP monotonicity beyond 8/10 bits is out of "
         "solver reach (stated), covered only by the real-arithmetic layer; cvc5/z3 trusted.",
         "symbolic execution of the real Python code (vx) to QF_FP / LRA terms, decided by cvc5 and z3",
@@ -51,7 +51,7 @@ CLAIMED = {
         "apply_qe (binomial draw = fresh integer with contract 0<=k<=n), simple_full_well, ipc_kernel on 2x2 symbolic frames; "
         "run_cdm_parallel/serial with symbolic beta (uninterpreted pow/exp with valid axioms), 2 (3) transfers, 1 (2) trap species; "
         "persistence kernels: 1 species fully symbolic, 1..3 species with symbolic pixel/trapped/capacity values over a stated list of "
-        "concrete parameter vectors (fully symbolic 2..3 species in thorough, may be inconclusive: NRA). CDM inductive step: two pixels along the transfer direction from an ARBITRARY valid trap occupancy (the kernel's np.zeros replaced by a symbolic array the harness keeps), 1..3 species, five concrete physics vectors with beta = 1: pixel + trapped never grows, nothing negative. Clip branches are enumerated as paths.",
+        "concrete parameter vectors (fully symbolic 2..3 species in thorough, may be inconclusive: NRA). CDM inductive step: two pixels along the transfer direction from an ARBITRARY valid trap occupancy (the kernel's np.zeros replaced by a symbolic array the harness keeps), 1..3 species, five concrete physics vectors with beta = 1: pixel + trapped never grows, nothing negative. Collection over 2-3 steps on one detector (clusters / arrays / both, equal cluster counts): each step adds exactly what it generated. Clip branches are enumerated as paths.",
         "Real arithmetic (no rounding, no fastmath reassociation); FFT convolution of IPC and sampler internals outside; "
         "persistence parameter vectors for >=2 species are a concrete list (stated in evidence bounds).",
         "dynamic symbolic execution of the real Python code (vx) + z3 LRA/NRA+UF, path-witness replay",
@@ -77,7 +77,7 @@ CLAIMED = {
         "target[target range], weights), each pair with its own processor, parameter applied.",
         "run_pipeline and xarray.DataArray are recording stand-ins in the accumulation harness (the stand-in frame depends on the seed the run is "
         "given, an unseeded run on a fresh unknown); champion re-simulation is decided at the level of _apply_parameters (same processor, parameter, "
-        "readout and seed-dependent frame as fitness()); monotone champion fitness depends on pygmo and is outside; NaN handling outside (real arithmetic).",
+        "readout and seed-dependent frame as fitness()); champion reporting (_get_champions) is executed against an archipelago stub under pygmo's contract (an island's champion is its best-ever individual and never gets worse): reported == best-ever, hence never worse than before; pygmo honouring that contract is assumed; NaN handling outside (real arithmetic).",
         "dynamic symbolic execution of the real Python code (vx) + z3 LIA/NRA, path-witness replay",
         "DESIGN.md section 4 C11",
     ),
@@ -126,8 +126,8 @@ CLAIMED = {
         "on/off patterns: all 45 group pairs x 2 models (16 patterns each), 3 models inside each of the 10 groups, 8 (quick) / 10 (thorough) "
         "groups x 1 model (256 / 1024 patterns), 1..3 readouts, debug on/off, pipelines built from Python objects and from mappings with "
         "group keys reversed / rotated, absent groups as None / [] / missing. Per path the probe trace is compared with the order written "
-        "in the harness from the statement (once per step, disabled never, kwargs terms exact, detector identity). Re-use: a pipeline object that was already run / printed / iterated gets a second symbolic on/off pattern and must execute exactly the models enabled now.",
-        "YAML text parsing, calibration mode and the dask path are outside; an always-enabled helper model initialises the buckets the real "
+        "in the harness from the statement (once per step, disabled never, kwargs terms exact, detector identity). Re-use: a pipeline object that was already run / printed / iterated gets a second symbolic on/off pattern and must execute exactly the models enabled now. Every group also in the three modes that work on copies of the processor: sequential observation, the function each dask worker executes, and the fitness evaluation of calibration.",
+        "YAML text parsing, pygmo's evolution loop and dask graph scheduling are outside; an always-enabled helper model initialises the buckets the real "
         "exposure loop needs to build its result.",
         "dynamic symbolic execution of the real Python code (vx) + z3 (Bool/LIA/LRA equalities), path-witness replay",
         "DESIGN.md section 4 C01",
@@ -138,8 +138,8 @@ CLAIMED = {
         "solver enumerates every feasible crash point (plus the no-fault path) through the real pyxel.run_mode in exposure and sequential "
         "observation (3 runs x 1..3 steps x 2..4 models, 17 exception classes incl. StopIteration and a user subclass; swept values of kind int, float, str, list, bool, numpy float) and through ModelFittingDataTree.fitness: the same exception "
         "object reaches the caller, notes name group and model (and the failing run's parameter values), no result is returned, nothing runs "
-        "after the fault, later runs never start. Solver-found crash points are replayed concretely in the dask path (.load()).",
-        "dask graph execution and pygmo threads are concrete replays only; calibration evolution phases outside.",
+        "after the fault, later runs never start. Solver-found crash points are replayed concretely in the dask path (.load()); calibration mode (initial population and evolution, real pygmo, 1 island) is covered by concrete witness runs over exception classes and fault positions.",
+        "dask graph execution and pygmo (C++) are concrete witness runs only, not symbolic.",
         "dynamic symbolic execution of the real Python code (vx) + z3 LIA (symbolic crash point), concrete replay for dask",
         "DESIGN.md section 4 C09",
     ),
@@ -163,7 +163,7 @@ CLAIMED = {
         "value: for each of ~21 keys, set(key, v) with a symbolic v of the right shape (int, real, bool, list) => get(key) == v and every "
         "other leaf keeps its initial term (frame condition), or it raises and nothing changed. Misspelt / truncated / extended / swapped keys "
         "(6 mutations of 5 base keys) at every entry point (set, has, validate_steps, apply_overrides, update_processor): refused, no attribute "
-        "created, state unchanged; arguments of a disabled model (flag symbolic) and undeclared arguments are errors; same-named models in different groups; "
+        "created, state unchanged; arguments of a disabled model (flag symbolic) and undeclared arguments are errors; same-named models in different groups; keys applied through Processor.replace twice (base processor and sibling copies independent, enabled and disabled models); "
         "list values: falsy / text / mixed / nested cases and all ordered pairs and rotating triples over a pool of 13 element kinds. eval_entry: decimal "
         "renderings and a sample list in vx, arbitrary strings of length <= 3 (4) with CrossHair.",
         "The eval_entry sub-check over arbitrary strings is bug-hunting only (ast.literal_eval is C code: CrossHair realises the string); "
@@ -179,7 +179,7 @@ CLAIMED = {
         "state term == initial term, seeded draws do not depend on the prior state (substitution of a fresh initial state). 15 stochastic model "
         "functions on real detectors: restored when seeded (also when the model fails late), draws independent of the prior state, no re-seeding "
         "without a seed; called twice on identical detectors from the same generator state every model consumes the same draws and leaves the same buckets (no process-level memo). Seed plumbing with a symbolic pipeline seed through real run_mode (exposure, sequential observation), the deprecated exposure entry point, the dask worker "
-        "function, fitness(), _apply_parameters and Calibration.run_calibration (archipelago stubbed).",
+        "function, fitness(), _apply_parameters and Calibration.run_calibration (archipelago stubbed); the optimiser seed is solver-chosen among 0, 1, 7, 100000 and must reach the archipelago, pygmo's global seed and the attribute unchanged.",
         "Bit-identity of results additionally assumes numpy's generator and pygmo are deterministic functions of their seeds; local generators "
         "are not modelled; models needing external files (cosmix, charge_deposition, nghxrg, qe maps) are not exercised; pulse_processing's "
         "deterministic physics is stubbed (170 s per pixel).",
@@ -222,7 +222,7 @@ CLAIMED = {
         "injective and complete over all save lists of 3 buckets x 3 formats, per-run suffixes disjoint, parallel index array a bijection, "
         "save_to_files reports every request once and never overwrites. Contents: Outputs.save_to_file with recording writers and a symbolic image / "
         "pixel bucket over ordered format lists (all ordered pairs of fits/npy/jpg/png/txt plus longer lists): every lossless writer receives exactly "
-        "the bucket (values, dtype), picture writers its 8-bit preview, the bucket is untouched. Existence of a foreign path is re-sampled at every "
+        "the bucket (values, dtype), picture writers its 8-bit preview, the bucket is untouched. save_to_files under rotations of three save lists (same bucket in non-adjacent entries). Existence of a foreign path is re-sampled at every "
         "observation (monotone), so a directory appearing between a test and the creation is covered; a non-terminating candidate loop is an obligation.",
         "Write primitives are recorders honouring their documented overwrite contract; the encoders themselves (astropy, numpy, PIL: bytes on disk) "
         "and the HDF5 writer are outside the symbolic claim (concrete replays write and read back real files); OS-level atomicity of mkdir assumed.",
@@ -245,7 +245,7 @@ CLAIMED = {
     "C17": (
         "model_checking",
         "The real exposure loop and the real flux-integrating models (uniform / rectangular / elliptic illumination, load_image, stripe_pattern, "
-        "load_charge, simple_conversion without sampling, simple_collection; 6 model sets) run on symbolic schedules: start, end and interior "
+        "load_charge, simple_conversion without sampling, simple_collection; load_image also as ADU with the photon-transfer conversion; 7 model sets) run on symbolic schedules: start, end and interior "
         "readout times, levels, file contents, quantum efficiency (time scales symbolic in the per-model sets). Non-destructive: final pixel frame of "
         "one readout at `end` == final frame of n readouts with symbolic interior points (n <= 4 quick, <= 12 thorough) and == rate x (end - start); "
         "destructive: frame i == rate x (t_i - t_(i-1)) and scaling all intervals by a symbolic lambda scales every frame by lambda. Every path "
